@@ -557,6 +557,12 @@ def exchange_binding(pid, tier, seed, wd, rep):
     t0 = time.time()
     mc = run_tlc("StunExchange.tla", "StunExchange_mc1.cfg", workers=4, timeout=3000)
     tlc_ok(mc, "StunExchange mc1")
+    if tier == "thorough":
+        # two concurrent transactions: 7.7x10^6 states, 1.2x10^8 transitions
+        mc2 = run_tlc("StunExchange.tla", "StunExchange_mc.cfg", workers=8, timeout=6000)
+        tlc_ok(mc2, "StunExchange mc (2 transactions)")
+        mc["distinct"] += mc2["distinct"]
+        mc["generated"] += mc2["generated"]
     path = os.path.join(wd, "exchange.lts")
     res = run_tlc("StunExchange.tla", "StunExchange_lts.cfg", workers=1, timeout=3000, out_path=path)
     tlc_ok(res, "StunExchange LTS")
